@@ -25,12 +25,22 @@ struct CaseAlphabet
 {
 	Aut::AlphabetType alpha;
 	std::vector<size_t> num;  // index in al -> library symbol number
-	explicit CaseAlphabet(const Alpha& al, const std::vector<int>* order = nullptr) : alpha(new Aut::OnTheFlyAlphabet), num(al.rank.size(), static_cast<size_t>(-1))
+	Aut::AbstractAlphabet::FwdTranslatorPtr tr;   // the translator the symbols were registered through, kept alive
+	explicit CaseAlphabet(const Alpha& al, const std::vector<int>* order = nullptr) : alpha(new Aut::OnTheFlyAlphabet), num(al.rank.size(), static_cast<size_t>(-1)), tr()
 	{
-		auto tr = alpha->GetSymbolTransl();
+		tr = alpha->GetSymbolTransl();
 		std::vector<int> ord;
 		if (order) ord = *order; else for (size_t i = 0; i < al.rank.size(); ++i) ord.push_back(static_cast<int>(i));
 		for (int i : ord) if (al.rank[i] >= 0) num[i] = (*tr)(Aut::StringRank("s" + std::to_string(i), al.rank[i]));
+	}
+	// the alphabet grows after it has been used: one more symbol, registered through the translator obtained at
+	// the beginning (kept == true) or through a new one
+	int extend(Alpha& al, int rank, bool kept)
+	{
+		int i = static_cast<int>(al.rank.size()); al.rank.push_back(rank);
+		if (kept) num.push_back((*tr)(Aut::StringRank("s" + std::to_string(i), rank)));
+		else { auto t = alpha->GetSymbolTransl(); num.push_back((*t)(Aut::StringRank("s" + std::to_string(i), rank))); }
+		return i;
 	}
 };
 
